@@ -1,12 +1,17 @@
-// Regenerates lean/KG/Gen/C19.lean: which operations of the API-backed limiter store
-// (pkg/ratelimiter/store/k8s/cache_store.go) hold the store mutex for their whole duration. The Lean model
-// treats an operation that holds the mutex as one that cannot run inside a running flush (which holds it from its
-// snapshot to its last write); `KG.Props.C19` derives from these facts which calls can land inside a flush.
+// Regenerates lean/KG/Gen/C19.lean:
+//  (1) which operations of the API-backed limiter store (pkg/ratelimiter/store/k8s/cache_store.go) hold the store
+//      mutex from before their first access to the API client or the cache until they return. The Lean model treats
+//      such an operation as one that cannot run inside a running flush (which holds the mutex from its snapshot to
+//      its last write); `KG.Props.C19` derives from these facts which calls can land inside a flush.
+//  (2) which REST strategy the control plane registers for ratelimitconditions.
 //
-// A method "holds the mutex" when, in its body (for Save: at the top of the body, or at the top of the
-// `if s.syncPeriod == 0 { … }` block), a statement `s.Lock()` / `s.RLock()` is immediately followed by
-// `defer s.Unlock()` / `defer s.RUnlock()` and no earlier statement touches the API client, the cache or
-// createOrUpdate. The receiver's type must embed sync.Mutex or sync.RWMutex.
+// The facts are semantic, not spellings: methods are found by ROLE (the exported LimitStore methods Save / Delete /
+// DeleteUpstream / Load / Flush / Stop, the function handed to wait.Until by the constructor), the API client and the
+// cache are the fields of objectStore with those TYPES, calls into same-receiver helper methods are inlined (any
+// depth ≤ 4), and "holds the mutex" means: walking the effective statement sequence, a `recv.Lock()` / `recv.RLock()`
+// immediately followed by `defer recv.Unlock()` / `defer recv.RUnlock()` comes before the first statement that touches
+// the client or the cache (directly or through a helper). For Save the lock may sit in an `if <period> == 0 { … }`
+// block of its own or at the head of the write-through block (the deferred unlock runs at return either way).
 package main
 
 import (
@@ -27,34 +32,114 @@ func src(g *lib.Gen, n ast.Node) string {
 	return b.String()
 }
 
-func touchesState(s string) bool {
-	return strings.Contains(s, "gatewayClient") || strings.Contains(s, "localStore") || strings.Contains(s, "createOrUpdate")
+type store struct {
+	g       *lib.Gen
+	methods map[string]*ast.FuncDecl
+	client  string // field of objectStore holding the gateway clientset
+	cache   string // field holding the local LimitStore
+	period  string // field of type time.Duration
 }
 
-// lockedPrefix: does the statement list take the receiver's mutex (lock + deferred unlock) before touching any state?
-// Returns the kind of lock ("Lock", "RLock") or "".
-func lockedPrefix(g *lib.Gen, recv string, stmts []ast.Stmt) string {
-	for i, st := range stmts {
-		text := src(g, st)
-		for _, kind := range []string{"Lock", "RLock"} {
-			un := map[string]string{"Lock": "Unlock", "RLock": "RUnlock"}[kind]
-			if text == recv+"."+kind+"()" && i+1 < len(stmts) && src(g, stmts[i+1]) == "defer "+recv+"."+un+"()" {
-				return kind
+func recvOf(fd *ast.FuncDecl) string {
+	if len(fd.Recv.List) == 1 && len(fd.Recv.List[0].Names) == 1 {
+		return fd.Recv.List[0].Names[0].Name
+	}
+	return "_"
+}
+
+// helper calls recv.M(…) of the store's own methods inside a node
+func (s *store) helperCalls(n ast.Node, recv string) []string {
+	var out []string
+	ast.Inspect(n, func(x ast.Node) bool {
+		if c, ok := x.(*ast.CallExpr); ok {
+			if sel, ok := c.Fun.(*ast.SelectorExpr); ok {
+				if id, ok := sel.X.(*ast.Ident); ok && id.Name == recv {
+					if _, ok := s.methods[sel.Sel.Name]; ok {
+						out = append(out, sel.Sel.Name)
+					}
+				}
 			}
 		}
-		if touchesState(text) {
-			return ""
+		return true
+	})
+	return out
+}
+
+func (s *store) direct(n ast.Node, recv string) bool {
+	t := src(s.g, n)
+	return strings.Contains(t, recv+"."+s.client) || strings.Contains(t, recv+"."+s.cache)
+}
+
+// touches: does the method reach the client or the cache (directly or through helpers)?
+func (s *store) touches(m string, depth int) bool {
+	fd := s.methods[m]
+	if fd == nil || depth == 0 {
+		return false
+	}
+	recv := recvOf(fd)
+	if s.direct(fd.Body, recv) {
+		return true
+	}
+	for _, h := range s.helperCalls(fd.Body, recv) {
+		if h != m && s.touches(h, depth-1) {
+			return true
+		}
+	}
+	return false
+}
+
+func isLockPair(g *lib.Gen, recv string, stmts []ast.Stmt, i int) string {
+	text := src(g, stmts[i])
+	for _, kind := range []string{"Lock", "RLock"} {
+		un := map[string]string{"Lock": "Unlock", "RLock": "RUnlock"}[kind]
+		if text == recv+"."+kind+"()" && i+1 < len(stmts) && src(g, stmts[i+1]) == "defer "+recv+"."+un+"()" {
+			return kind
 		}
 	}
 	return ""
 }
 
+// lockOf walks the effective statement sequence of a method. It returns the kind of lock taken before the first
+// access to client/cache ("Lock", "RLock"; prefixed "wt:" when the lock sits in an `if <period> == 0` block), or "",
+// and the method in which the decision fell.
+func (s *store) lockOf(m string, depth int) (kind, where string) {
+	fd := s.methods[m]
+	if fd == nil || depth == 0 {
+		return "", m
+	}
+	recv := recvOf(fd)
+	stmts := fd.Body.List
+	for i, st := range stmts {
+		if k := isLockPair(s.g, recv, stmts, i); k != "" {
+			return k, m
+		}
+		if is, ok := st.(*ast.IfStmt); ok && is.Init == nil && !s.direct(is.Cond, recv) && len(s.helperCalls(is.Cond, recv)) == 0 {
+			// a lock taken at the head of a write-through-only block
+			if len(is.Body.List) >= 2 {
+				if k := isLockPair(s.g, recv, is.Body.List, 0); k != "" &&
+					strings.Contains(strings.ReplaceAll(src(s.g, is.Cond), " ", ""), recv+"."+s.period+"==0") {
+					return "wt:" + k, m
+				}
+			}
+		}
+		if s.direct(st, recv) {
+			return "", m
+		}
+		for _, h := range s.helperCalls(st, recv) {
+			if h != m && s.touches(h, 4) {
+				return s.lockOf(h, depth-1)
+			}
+		}
+	}
+	return "", m
+}
+
 func main() {
 	lib.Main(func(g *lib.Gen) {
 		f := g.ParseFile(file)
+		s := &store{g: g, methods: map[string]*ast.FuncDecl{}}
 		embedsMutex := ""
-		methods := map[string]*ast.FuncDecl{}
-		recvName := map[string]string{}
+		periodic := "" // the method the constructor hands to wait.Until
 		for _, d := range f.Decls {
 			switch d := d.(type) {
 			case *ast.GenDecl:
@@ -68,68 +153,87 @@ func main() {
 						lib.Fatalf("objectStore is not a struct")
 					}
 					for _, fld := range st.Fields.List {
-						if len(fld.Names) == 0 {
-							if t := src(g, fld.Type); t == "sync.Mutex" || t == "sync.RWMutex" {
-								embedsMutex = t
-							}
+						t := src(g, fld.Type)
+						switch {
+						case len(fld.Names) == 0 && (t == "sync.Mutex" || t == "sync.RWMutex"):
+							embedsMutex = t
+						case len(fld.Names) == 1 && strings.HasSuffix(t, "clientset.Interface"):
+							s.client = fld.Names[0].Name
+						case len(fld.Names) == 1 && strings.HasSuffix(t, ".LimitStore"):
+							s.cache = fld.Names[0].Name
+						case len(fld.Names) == 1 && t == "time.Duration":
+							s.period = fld.Names[0].Name
 						}
 					}
 				}
 			case *ast.FuncDecl:
-				if d.Recv == nil || len(d.Recv.List) != 1 || src(g, d.Recv.List[0].Type) != "*objectStore" || d.Body == nil {
+				if d.Body == nil {
 					continue
 				}
-				methods[d.Name.Name] = d
-				if len(d.Recv.List[0].Names) == 1 {
-					recvName[d.Name.Name] = d.Recv.List[0].Names[0].Name
+				if d.Recv != nil && len(d.Recv.List) == 1 && src(g, d.Recv.List[0].Type) == "*objectStore" {
+					s.methods[d.Name.Name] = d
+				}
+				if d.Recv == nil {
+					ast.Inspect(d.Body, func(x ast.Node) bool {
+						if c, ok := x.(*ast.CallExpr); ok && src(g, c.Fun) == "wait.Until" && len(c.Args) >= 1 {
+							if sel, ok := c.Args[0].(*ast.SelectorExpr); ok {
+								periodic = sel.Sel.Name
+							}
+						}
+						return true
+					})
 				}
 			}
 		}
 		if embedsMutex == "" {
 			lib.Fatalf("%s: objectStore no longer embeds sync.Mutex / sync.RWMutex", file)
 		}
-		need := func(n string) *ast.FuncDecl {
-			d, ok := methods[n]
-			if !ok {
+		if s.client == "" || s.cache == "" || s.period == "" {
+			lib.Fatalf("%s: objectStore: cannot find the clientset / LimitStore / time.Duration fields (%q, %q, %q)", file, s.client, s.cache, s.period)
+		}
+		for _, n := range []string{"Save", "Delete", "DeleteUpstream", "Load", "Flush", "Stop"} {
+			if s.methods[n] == nil {
 				lib.Fatalf("%s: method (*objectStore).%s not found", file, n)
 			}
-			return d
 		}
-		holds := func(n string) string { return lockedPrefix(g, recvName[n], need(n).Body.List) }
-		// Save: at the top, or at the top of the write-through block
-		save := need("Save")
-		saveLock := lockedPrefix(g, recvName["Save"], save.Body.List)
-		if saveLock == "" {
-			for _, st := range save.Body.List {
-				if is, ok := st.(*ast.IfStmt); ok && src(g, is.Cond) == recvName["Save"]+".syncPeriod == 0" {
-					saveLock = lockedPrefix(g, recvName["Save"], is.Body.List)
-				}
+		if periodic == "" || s.methods[periodic] == nil {
+			lib.Fatalf("%s: the constructor no longer hands a method of the store to wait.Until", file)
+		}
+		flushKind, flushFn := s.lockOf("Flush", 4)
+		// Stop and the periodic goroutine flush through the same function as Flush
+		for _, n := range []string{"Stop", periodic} {
+			k, fn := s.lockOf(n, 4)
+			if k != flushKind || fn != flushFn {
+				lib.Fatalf("%s: %s does not flush the way Flush does (%q in %s vs %q in %s)", file, n, k, fn, flushKind, flushFn)
 			}
 		}
-		// Flush, Stop and the periodic sync go through doSyncLocked
-		for _, n := range []string{"Flush", "Stop", "sync"} {
-			if !strings.Contains(src(g, need(n).Body), recvName[n]+".doSyncLocked()") {
-				lib.Fatalf("%s: %s no longer flushes through doSyncLocked", file, n)
-			}
+		if flushKind == "RLock" {
+			lib.Fatalf("%s: the flush takes only a read lock", file)
 		}
-		b := func(s string) string {
-			if s != "" {
+		delKind, _ := s.lockOf("Delete", 4)
+		delUpKind, _ := s.lockOf("DeleteUpstream", 4)
+		saveKind, _ := s.lockOf("Save", 4)
+		loadKind, _ := s.lockOf("Load", 4)
+		uncond := func(k string) string { // a deletion / flush must hold the mutex unconditionally
+			if strings.HasPrefix(k, "wt:") {
+				return ""
+			}
+			return k
+		}
+		b := func(k string) string {
+			if k != "" {
 				return "true"
 			}
 			return "false"
 		}
 		var out strings.Builder
 		out.WriteString("namespace KG.Gen.C19\n")
-		fmt.Fprintf(&out, "/-! %s: objectStore embeds %s; which methods hold it (lock + deferred unlock before touching the API or the cache) -/\n", file, embedsMutex)
-		fmt.Fprintf(&out, "def flushHoldsMutex : Bool := %s          -- doSyncLocked (%q)\n", b(holds("doSyncLocked")), holds("doSyncLocked"))
-		fmt.Fprintf(&out, "def deleteHoldsMutex : Bool := %s         -- Delete (%q)\n", b(holds("Delete")), holds("Delete"))
-		fmt.Fprintf(&out, "def deleteUpstreamHoldsMutex : Bool := %s -- DeleteUpstream (%q)\n", b(holds("DeleteUpstream")), holds("DeleteUpstream"))
-		fmt.Fprintf(&out, "def saveExcludesFlush : Bool := %s        -- write-through Save (%q)\n", b(saveLock), saveLock)
-		fmt.Fprintf(&out, "def loadHoldsMutex : Bool := %s           -- Load (%q)\n", b(holds("Load")), holds("Load"))
-		// a flush holding only a read lock would not exclude readers
-		if k := holds("doSyncLocked"); k == "RLock" {
-			lib.Fatalf("%s: doSyncLocked takes only a read lock", file)
-		}
+		fmt.Fprintf(&out, "/-! %s: objectStore embeds %s; which methods hold it (lock + deferred unlock before the first access to the API client or the cache, helpers inlined) -/\n", file, embedsMutex)
+		fmt.Fprintf(&out, "def flushHoldsMutex : Bool := %s          -- Flush / Stop / the periodic goroutine (%q)\n", b(uncond(flushKind)), flushKind)
+		fmt.Fprintf(&out, "def deleteHoldsMutex : Bool := %s         -- Delete (%q)\n", b(uncond(delKind)), delKind)
+		fmt.Fprintf(&out, "def deleteUpstreamHoldsMutex : Bool := %s -- DeleteUpstream (%q)\n", b(uncond(delUpKind)), delUpKind)
+		fmt.Fprintf(&out, "def saveExcludesFlush : Bool := %s        -- write-through Save (%q)\n", b(saveKind), saveKind)
+		fmt.Fprintf(&out, "def loadHoldsMutex : Bool := %s           -- Load (%q)\n", b(uncond(loadKind)), loadKind)
 		// --- which REST strategy the control plane registers for ratelimitconditions (rest.go), and whether a write to
 		// the MAIN resource (all the limiter's store does) persists the status
 		const restFile = "pkg/gateway/controlplane/registry/proxy/rest/rest.go"
@@ -138,7 +242,8 @@ func main() {
 		strategyExpr := ""
 		for _, d := range rf.Decls {
 			fd, ok := d.(*ast.FuncDecl)
-			if !ok || fd.Name.Name != "newRateLimitConditionOption" || fd.Body == nil {
+			// found by role: the function that registers the resource "ratelimitconditions"
+			if !ok || fd.Body == nil || !strings.Contains(src(g, fd.Body), `"ratelimitconditions"`) {
 				continue
 			}
 			ast.Inspect(fd.Body, func(n ast.Node) bool {
@@ -149,7 +254,7 @@ func main() {
 			})
 		}
 		if strategyExpr == "" {
-			lib.Fatalf("%s: newRateLimitConditionOption no longer calls SetRESTStrategy", restFile)
+			lib.Fatalf("%s: no function registers a REST strategy for \"ratelimitconditions\"", restFile)
 		}
 		// resolve a shared singleton to its constructor call
 		ctor := strategyExpr
